@@ -252,3 +252,14 @@ reg('C13', engine='llsym',
     note='Trusted: clang IR of backend and generated code, llsym semantics, CPython contracts. libffi itself, struct-by-value, '
          'variadic calls, pointer/char arguments and dlopen paths are not covered.',
     technique='symbolic execution of LLVM IR (backend + run-time generated module), differential against the libffi-path kernel, SMT (z3)')
+
+reg('C12', engine='llsym',
+    text='The checking kernels of API mode: (1) a module generated at run time by the working tree\'s Recompiler, whose '
+         'constants are extern objects in the C source (the compiler\'s value is symbolic): the generated _cffi_const_K plus '
+         'realize_global_int raise FFIError iff a stated cdef value differs from the compiler\'s, and otherwise return exactly '
+         'the compiler\'s value (always so for unchecked "static const" constants); (2) b_complete_struct_or_union in '
+         'compiler-provided mode with symbolic offsets/sizeof/alignof: with the check flag FFIError iff some number differs '
+         'from what the cdef implies, with "..." the compiler\'s numbers are recorded verbatim; (3) detect_custom_layout.',
+    note='Trusted: clang IR, llsym semantics, CPython contracts. Functions/variables plumbing is C13; import machinery, '
+         'verify() and the compile step are outside.',
+    technique='symbolic execution of LLVM IR (backend + run-time generated module) with the C compiler\'s answers as symbolic inputs, SMT (z3)')
